@@ -28,14 +28,29 @@ CLAIMED = {
  "C08": ("affine_transform / translation (coordinates or a Point with any representative) / scaling matrices and their action; rotation(t): counter-clockwise matrix, rotation(s)*rotation(t) == rotation(s+t), orthogonal with determinant 1 (trig leaf with addition formulas); rotation(t, axis) for EVERY axis direction: orthogonal, det 1, fixes the axis, trace 1 + 2cos t, additive about the same axis; reflection(line) for every finite line: equals the closed-form mirror image (hence agrees with h.mirror, C10), involution, fixes the mirror pointwise, reflection(infinity) = identity; Transformation.from_points in 2D maps each of the four source points to its target for all frames in general position. 3D reflection / from_points (QR / size) and from_points_and_conics are not covered.", "4.8"),
 }
 NA = {}
+def bounded_by_property():
+    """bounded stand-ins registered per property (read from the contract modules), so that the claimed level names them"""
+    import subprocess
+    code = ("import sys,json;sys.path[:0]=['/verif/.deps','/verif','/repo'];from gvc.worker import load_contracts;load_contracts();from gvc.harness import CASES;"
+            "print('@@'+json.dumps({p:[dict(id=c.id,bound=getattr(c,'bound','')) for c in cs if c.kind=='bounded'] for p,cs in CASES.items()}))")
+    out = subprocess.run(["/venv/bin/python", "-c", code], cwd=HERE, capture_output=True, text=True).stdout
+    line = [l for l in out.splitlines() if l.startswith("@@")]
+    return json.loads(line[0][2:]) if line else {}
+
+
 def main():
     props = [json.loads(l) for l in open(os.path.join(HERE, "properties.jsonl"))]
+    bounded = bounded_by_property()
     checks = []
     for p in props:
         pid = p["id"]
         if pid not in CLAIMED:
             continue
         text, ref = CLAIMED[pid]
+        bs = bounded.get(pid, [])
+        if bs:
+            text += " BOUNDED stand-ins (native enumeration, reported under coverage.bounded, never counted as proved): " + "; ".join(
+                "%s [%s]" % (b["id"].split("/", 1)[1], " ".join(b["bound"].split())[:260]) for b in bs) + "."
         checks.append(dict(
             property_id=pid,
             quick_cmd="./check %s --tier quick" % pid,
